@@ -18,7 +18,7 @@ HDR = 'celma/common/fixed_string.hpp'
 # --------------------------------------------------------------------------------------------
 # shadow extraction
 
-DROP_SIG = re.compile(r'std::string::iterator|initializer_list|template< size_t S>|::sprintf')
+DROP_SIG = re.compile(r'std::string::iterator|initializer_list|::sprintf')
 DROP_BODY = re.compile(r'initializer_list')
 ACCESSOR_DECL = re.compile(r'^   (const_)?(reverse_)?iterator c?r?(begin|end)\(\)( const)? noexcept;\n$')
 ACCESSOR_DEF = re.compile(r'FixedString< L>::c?r?(begin|end)\(\)\s*(const)?\s*(noexcept)?\s*$')
@@ -27,6 +27,7 @@ ACCESSOR_DEF = re.compile(r'FixedString< L>::c?r?(begin|end)\(\)\s*(const)?\s*(n
 def extract(shadow):
     """fixed_string.hpp -> shadow; returns list of dropped members (not under contract)."""
     dropped = []
+    tinst_s = []
 
     def pre(s):
         ci = s.index('template< size_t L> class FixedString')
@@ -40,9 +41,19 @@ def extract(shadow):
             d = m.group(0)
             if ACCESSOR_DECL.search(d):
                 return d
-            if re.search(r'std::string::iterator|initializer_list|template< size_t S>|sprintf', d):
+            if re.search(r'std::string::iterator|initializer_list|sprintf', d):
                 dropped.append('decl: ' + ' '.join(d.split()))
                 return ''
+            if 'template< size_t S>' in d:
+                # T-INST-S: member templates of a class template are not supported by the front end ("symbol 'S' is unknown");
+                # the cross-capacity members are textually instantiated with S := CV_S (a capacity chosen per proof instance)
+                tinst_s.append('decl')
+                d = re.sub(r'template< size_t S>\s*', '', d).replace('FixedString< S>', 'FixedString< CV_S>')
+                # inside FixedString< CV_S> itself these two would be the copy constructor / copy assignment (which the real class
+                # defaults and the front end generates): they get a distinguishable signature (tag parameter / callable name)
+                d = d.replace('FixedString( const FixedString< CV_S>& other)', 'FixedString( const FixedString< CV_S>& other, int /* T-INST-S tag */)')
+                d = d.replace('operator =( const FixedString< CV_S>& str)', 'cv_op_assign( const FixedString< CV_S>& str)')
+                return d
             return d
         # T-INST of the iterator templates (see extract_iterators).  The four alias declarations are dropped and every use is
         # spelled with the instantiated class name: an in-class typedef of a class type is laid out as a data member by the
@@ -64,6 +75,11 @@ def extract(shadow):
             if DROP_SIG.search(sig) or DROP_BODY.search(p):
                 dropped.append('def: ' + ' '.join(sig.split()))
                 continue
+            if 'template< size_t S>' in sig:
+                tinst_s.append('def')
+                p = p.replace('template< size_t L> template< size_t S>', 'template< size_t L>', 1).replace('FixedString< S>', 'FixedString< CV_S>')
+                p = p.replace('FixedString< L>::FixedString( const FixedString< CV_S>& other)', 'FixedString< L>::FixedString( const FixedString< CV_S>& other, int)')
+                p = p.replace('FixedString< L>::operator =( const FixedString< CV_S>& str)', 'FixedString< L>::cv_op_assign( const FixedString< CV_S>& str)')
             keep.append(p)
         def itname(m):
             return 'detail::FixedString%sIterator' % ('Reverse' if m.group(2) else '')
@@ -74,7 +90,22 @@ def extract(shadow):
         body, n3 = re.subn(r'(?<![:\w])(const_)?(reverse_)?iterator\b', itname, body)
         # R-FRIENDOP: the iterator difference is a friend function defined inside the iterator class; the front end does not
         # find it by argument-dependent lookup, the call is spelled out (same function, same arguments)
-        body, n4 = re.subn(r'\b(pos|position|first|last|last2) - (cbegin\(\)|first2?)(?=[;,)])', r'detail::FixedStringIterator::cv_diff( \1, \2)', body)
+        # The operands are recognised per member: parameters and locals of the iterator type (also `auto` locals initialised from
+        # begin()/end()), and the begin()/end() accessor calls
+        n4 = 0
+        pieces = re.split(r'(?m)^(?=template< size_t L>)', body)
+        for k, piece in enumerate(pieces):
+            names = set(re.findall(r'FixedStringIterator\s+(\w+)\s*[,)=;(]', piece))
+            names |= set(re.findall(r'\bauto(?:\s+const)?\s+(\w+)\s*=\s*c?(?:begin|end)\(\)', piece))
+            names.discard('operator')
+            if not names:
+                continue
+            opnd = r'(?:%s|c?begin\(\)|c?end\(\))' % '|'.join(sorted(names))
+            pieces[k], n = re.subn(r'(?<![\w.>])(%s) - (%s)(?=\s*[;,)])' % (opnd, opnd), r'detail::FixedStringIterator::cv_diff( \1, \2)', piece)
+            n4 += n
+        body = ''.join(pieces)
+        if not (tinst_s.count('decl') == tinst_s.count('def') and 14 <= tinst_s.count('def') <= 22):
+            raise Undecided('extraction: T-INST-S fired on %d declarations / %d definitions (expected 17 / 17)' % (tinst_s.count('decl'), tinst_s.count('def')))
         if not 10 <= n4 <= 16:
             raise Undecided('extraction: R-FRIENDOP fired %d times (expected about 13)' % n4)
         if not (12 <= n1 <= 24 and 40 <= n2 <= 70 and 25 <= n3 <= 60):
@@ -93,11 +124,11 @@ def extract(shadow):
         Rule('R-ACCESS', r'^private:', 'public:', 1),
         Rule('R-THROW', r'throw std::out_of_range\([^;]*\);', 'CV_THROW( 1);', 2, flags=re.M | re.S),
         # T-INST: the two-parameter free operator templates cannot be instantiated by the front end;
-        # bind S := L and give them a callable name (bodies untouched)
+        # bind S := CV_S (the second capacity of the proof instance) and give them a callable name (bodies untouched)
         Rule('T-INST-opeq', r'template< size_t L, size_t S>\n   bool operator ==\( const FixedString< L>& lhs, const FixedString< S>& rhs\)',
-             'template< size_t L>\n   bool cv_op_eq( const FixedString< L>& lhs, const FixedString< L>& rhs)', 1),
+             'template< size_t L>\n   bool cv_op_eq( const FixedString< L>& lhs, const FixedString< CV_S>& rhs)', 1),
         Rule('T-INST-opne', r'template< size_t L, size_t S>\n   bool operator !=\( const FixedString< L>& lhs, const FixedString< S>& rhs\)',
-             'template< size_t L>\n   bool cv_op_ne( const FixedString< L>& lhs, const FixedString< L>& rhs)', 1),
+             'template< size_t L>\n   bool cv_op_ne( const FixedString< L>& lhs, const FixedString< CV_S>& rhs)', 1),
         # const iterators: both instantiations are bound to the same class (the front end loses const on class types)
         Rule('R-CONST-iter', r'(return detail::FixedString(?:Reverse)?Iterator\( (?:true, )?)this\);(\n\} // FixedString< L>::c?r?(?:begin|end)\n)', r'\1const_cast< FixedString*>( this));\2', 12),
         Rule('T-INST-fwd', r'^template< size_t L> class FixedString\n', 'namespace detail { class FixedStringIterator; class FixedStringReverseIterator; }\ntemplate< size_t L> class FixedString\n', 1),
@@ -110,6 +141,8 @@ def extract(shadow):
         # contract get the equivalent zero fill as first statement (mLength is initialised by their mem-initialiser lists)
         Rule('R-NSDMI-ctor', r'(^template< size_t L> FixedString< L>::FixedString\( const (?:char\* str|std::string& str)\)\s*noexcept:\s*mLength\([^\n]*\)\n\{\n)',
              r'\1   for (size_t cv_i = 0; cv_i <= L; ++cv_i) mString[ cv_i] = 0;   // R-NSDMI\n', 2),
+        Rule('R-NSDMI-ctor-cross', r'(^template< size_t L>\n   FixedString< L>::FixedString\( const FixedString< CV_S>& other, int\) noexcept:\s*mLength\([^\n]*\)\n\{\n)',
+             r'\1   for (size_t cv_i = 0; cv_i <= L; ++cv_i) mString[ cv_i] = 0;   // R-NSDMI\n', 1),
         Rule('R-DEFAULT-ctors', r'^   (FixedString\(\)|FixedString\( const FixedString&\)|~FixedString\(\)) = default;\n', '', 3),
         Rule('drop-ostream', r'^template< size_t L>\n   std::ostream& operator <<\(.*?\n\} // operator <<\n', '', 1,
              flags=re.M | re.S),
@@ -117,8 +150,8 @@ def extract(shadow):
     path = shadow.extract(HDR, rules, pre=pre)
     n_decl = sum(1 for d in dropped if d.startswith('decl'))
     n_def = sum(1 for d in dropped if d.startswith('def'))
-    if not (20 <= n_decl <= 34 and 20 <= n_def <= 34):
-        raise Undecided('extraction: dropped %d declarations / %d definitions of FixedString, expected about 27/27'
+    if not (3 <= n_decl <= 12 and n_decl == n_def):
+        raise Undecided('extraction: dropped %d declarations / %d definitions of FixedString, expected about 4/4'
                         % (n_decl, n_def))
     shadow.dropped += dropped
     extract_iterators(shadow)
@@ -251,20 +284,26 @@ OBSERVERS = []   # filled in by fs_obs.py (C11 observers)
 # --------------------------------------------------------------------------------------------
 # text generation
 
-def wrappers_text(L, methods):
+def wrappers_text(L, methods, S2=None):
+    S2 = S2 or L
     o = ['// generated: extern "C" wrappers and state accessors for FixedString<%d> (compiled with the shadow header)' % L,
          '#include <cstdint>', '#include <cstring>', '#include <string>',
          'extern "C" int cv_thrown;',
          '#define CV_THROW(k) { cv_thrown = (k); return mString[ 0]; }',
          '#define CV_THROW_IT(k) { cv_thrown = (k); __CPROVER_assume(0); }   /* a throw in an iterator ends the call */',
-         '#define CV_L %d' % L, '#include <stdexcept>', '#include <iterator>', '#include <limits>', '#include "celma/common/pre_postfix.hpp"',
+         '#define CV_L %d' % L, '#define CV_S %d   /* capacity of the other operand of the cross-capacity members (T-INST-S) */' % S2,
+         '#include <stdexcept>', '#include <iterator>', '#include <limits>', '#include "celma/common/pre_postfix.hpp"',
          '#include "%s"' % HDR,
+         'typedef celma::common::FixedString< CV_S> FS2;',
          'typedef CV_FS FS;   /* = celma::common::FixedString< CV_L>, instantiated once at the end of the shadow header */',
          '#define CV_IT(o, i) ((i) == 18446744073709551615UL ? (o)->cend() : celma::common::detail::FixedStringIterator( (o), (i)))',
          'extern "C" {',
          'size_t w_sizeof() { return sizeof(FS); }',
          'size_t w_length(const void* self) { return static_cast<const FS*>(self)->mLength; }',
          'char w_char_at(const void* self, size_t i) { return static_cast<const FS*>(self)->mString[i]; }',
+         'size_t w_sizeof2() { return sizeof(FS2); }',
+         'size_t w_length2(const void* p) { return static_cast<const FS2*>(p)->mLength; }',
+         'char w_char_at2(const void* p, size_t i) { return static_cast<const FS2*>(p)->mString[i]; }',
          'size_t w_api_length(const void* self) { return static_cast<const FS*>(self)->length(); }',
          'int w_api_empty(const void* self) { return static_cast<const FS*>(self)->empty(); }',
          'char w_api_cstr_at(const void* self, size_t i) { return static_cast<const FS*>(self)->c_str()[i]; }']
@@ -285,6 +324,9 @@ def wrappers_text(L, methods):
             elif kind == 'F':
                 params.append('void* %s_p' % name)
                 pre.append('FS& %s = *static_cast<FS*>(%s_p);' % (name, name))
+            elif kind == 'G':
+                params.append('void* %s_p' % name)
+                pre.append('FS2& %s = *static_cast<FS2*>(%s_p);' % (name, name))
         call = 'static_cast<FS*>(self)->' + m.call
         if m.raw:
             if m.ret == 'str':
@@ -323,8 +365,9 @@ def cond_chain(prefix, n, idx):
     return '(' + s + '%s%d)' % (prefix, n - 1)
 
 
-def prelude_c(L, K, objsz_macro=True, light=False):
+def prelude_c(L, K, objsz_macro=True, light=False, S2=None):
     LG = 0 if light else L
+    S2 = S2 or L
     g = ['#include <stddef.h>', '#include <stdint.h>',
          '#define L %dul' % L, '#define K %dul' % K,
          'size_t w_sizeof(void); size_t w_length(const void*); char w_char_at(const void*, size_t);',
@@ -334,6 +377,9 @@ def prelude_c(L, K, objsz_macro=True, light=False):
          '/* the last buffer byte is only ever written as terminator: part of the invariant (established by the member',
          '   initialiser, preserved by every method -- checked as postcondition) so that pre-states are reachable ones */',
          '#define WF(p) (w_length(p) <= L && w_char_at(p, w_length(p)) == 0 && w_char_at(p, L) == 0)',
+         '#define S2 %dul   /* capacity of the other operand of the cross-capacity members */' % S2,
+         'size_t w_sizeof2(void); size_t w_length2(const void*); char w_char_at2(const void*, size_t);',
+         '#define WF2(p) (w_length2(p) <= S2 && w_char_at2(p, w_length2(p)) == 0 && w_char_at2(p, S2) == 0)',
          '#define GHOSTS size_t g_len' + ''.join(', char g%d' % i for i in range(LG)),
          '#define GHOST_ARGS g_len' + ''.join(', g%d' % i for i in range(LG)),
          '#define TIE(p) (w_length(p) == g_len' + ''.join(' && w_char_at(p,%d) == g%d' % (i, i) for i in range(LG)) + ')',
@@ -351,8 +397,10 @@ def src_ghost_decl(name, K):
     return ''.join(', char %s_%d' % (name, j) for j in range(K))
 
 
-def contract_text(m, L, K, c11, extra_req=(), light=False):
+def contract_text(m, L, K, c11, extra_req=(), light=False, S2=None):
     LG = 0 if light else L
+    S2 = S2 or L
+    SG = 0 if light else S2
     """The C contract function + harness for one method."""
     params = ['void* self']
     ghosts = []          # extra ghost params (source contents, lengths)
@@ -406,6 +454,14 @@ def contract_text(m, L, K, c11, extra_req=(), light=False):
             hdecl += ['size_t %s_n;' % name] + ['char %s_%d;' % (name, j) for j in range(LG)]
             req.append('w_length(%s) == %s_n' % (name, name) + ''.join(' && w_char_at(%s,%d) == %s_%d' % (name, j, name, j) for j in range(LG)))
             defs.append('#define SRC_%s(j) %s' % (name, cond_chain(name + '_', LG, 'j')))
+        elif kind == 'G':   # a FixedString of the second capacity
+            params.append('void* ' + name); hdecl.append('void* %s;' % name); hargs.append(name); wargs.append(name)
+            req.append('__CPROVER_is_fresh(%s, OBJSZ2) && WF2(%s)' % (name, name))
+            noz += ['(%d >= %s_n || %s_%d != 0)' % (j, name, name, j) for j in range(SG)]
+            ghosts += ['size_t %s_n' % name] + ['char %s_%d' % (name, j) for j in range(SG)]
+            hdecl += ['size_t %s_n;' % name] + ['char %s_%d;' % (name, j) for j in range(SG)]
+            req.append('w_length2(%s) == %s_n' % (name, name) + ''.join(' && w_char_at2(%s,%d) == %s_%d' % (name, j, name, j) for j in range(SG)))
+            defs.append('#define SRC_%s(j) %s' % (name, cond_chain(name + '_', SG, 'j')))
     if m.ret == 'str':
         params.append('char* out'); hdecl.append('char* out;'); hargs.append('out'); wargs += ['out', 'L']
         req.append('__CPROVER_is_fresh(out, L)')
@@ -426,7 +482,7 @@ def contract_text(m, L, K, c11, extra_req=(), light=False):
         o.append('__CPROVER_requires(%s)  /* documented precondition */' % m.dom10)
     spec = m.spec if c11 else None
     if callable(spec):
-        spec = spec(L, K)
+        spec = spec(L, S2 if getattr(m, 'cross', False) else K)
     if spec:
         o.append('__CPROVER_requires(%s)  /* documented domain of the std::string operation */' % spec['dom'])
     for r in extra_req:
@@ -475,7 +531,7 @@ def contract_text(m, L, K, c11, extra_req=(), light=False):
                     o.append('__CPROVER_ensures(%s)' % cl)
     call = 'w_%s(%s)' % (m.id, ', '.join(wargs))
     o.append('{ %s%s; }' % ('' if rt == 'void' else 'return ', call))
-    o.append('void h_%s(void) { void* self; %s __CPROVER_assert(w_sizeof() == OBJSZ, "layout witness: sizeof(FixedString<L>)"); '
+    o.append('void h_%s(void) { void* self; %s __CPROVER_assert(w_sizeof() == OBJSZ, "layout witness: sizeof(FixedString<L>)"); __CPROVER_assert(w_sizeof2() == OBJSZ2, "layout witness: sizeof(FixedString<S2>)"); '
              'cw_%s(%s); CANARY; }' % (m.id, ' '.join(hdecl), m.id, ', '.join(hcall)))
     return '\n'.join(o) + '\n'
 
@@ -493,7 +549,7 @@ def wrapper_decl(m):
             params.append('char* ' + name)
         elif kind == 'S':
             params += ['const char* %s_p' % name, 'size_t %s_n' % name]
-        elif kind == 'F':
+        elif kind in ('F', 'G'):
             params.append('void* %s_p' % name)
     if m.ret == 'str':
         params += ['char* out', 'size_t out_cap']
@@ -501,6 +557,13 @@ def wrapper_decl(m):
         params += ['int* thrown']
     rt = {'r': 'int', 'v': 'void', 'z': 'size_t', 'i': 'int', 'B': 'int', 'c': 'char', 'str': 'size_t', 'cT': 'char'}[m.ret]
     return '%s w_%s(%s);' % (rt, m.id, ', '.join(params))
+
+
+def cross_caps(L, tier):
+    """second capacities S2 for the cross-capacity members of FixedString<L> (same length type as L: one CV_SIZE_TYPE per TU)"""
+    if tier == 'quick':
+        return {3: [2, 3, 4], 1: [2]}.get(L, [])
+    return sorted(set([max(1, L - 1), L, L + 1] + ({3: [8], 8: [3]}.get(L, []))))
 
 
 def size_type(L):
@@ -541,12 +604,14 @@ class Unit:
         except (ValueError, IndexError):
             return None
 
-    def files(self, L, K, c11, methods):
-        key = 'fs_L%d_K%d_%d' % (L, K, int(c11))
+    def files(self, L, K, c11, methods, S2=None):
+        key = 'fs_L%d%s_K%d_%d' % (L, 'x%d' % S2 if S2 else '', K, int(c11))
         with self._lock:
             wpath = self.scratch.path('gen/%s_w.cpp' % key)
             if not os.path.exists(wpath):
-                self.scratch.write('gen/%s_w.cpp.tmp' % key, wrappers_text(L, methods))
+                # a cross-capacity instance carries only the cross-capacity wrappers (the others are proved in the plain instance)
+                ms = [m for m in methods if getattr(m, 'cross', False) and (S2 != L or not getattr(m, 'only_diff', False))] if S2 else [m for m in methods if not getattr(m, 'cross', False)]
+                self.scratch.write('gen/%s_w.cpp.tmp' % key, wrappers_text(L, ms, S2))
                 os.rename(wpath + '.tmp', wpath)
         return key, wpath
 
@@ -558,7 +623,7 @@ class Unit:
         src = self.scratch.write('gen/sz_%d.cpp' % L,
                                  '#include <cstdint>\n#include <cstring>\n#include <string>\nextern "C" int cv_thrown;\n'
                                  '#define CV_THROW(k) { cv_thrown = (k); return mString[ 0]; }\n#define CV_THROW_IT(k) { cv_thrown = (k); __CPROVER_assume(0); }\n'
-                                 '#define CV_L %d\n#include <stdexcept>\n#include <iterator>\n#include <limits>\n#include "celma/common/pre_postfix.hpp"\n' % L +
+                                 '#define CV_L %d\n#define CV_S CV_L\n#include <stdexcept>\n#include <iterator>\n#include <limits>\n#include "celma/common/pre_postfix.hpp"\n' % L +
                                  '#include "%s"\nint cv_thrown;\nint main() { __CPROVER_assert(sizeof(CV_FS) == CV_SZ, "sz"); }\n' % HDR)
         st = size_type(L)
         lo = L + 1 + {'uint8_t': 1, 'uint16_t': 2, 'uint32_t': 4}[st]
@@ -573,12 +638,13 @@ class Unit:
         raise Undecided('could not determine sizeof(FixedString<%d>) in the CBMC layout' % L)
 
 
-def make_build(unit, m, L, K, c11, methods, extra_req=(), light=False):
+def make_build(unit, m, L, K, c11, methods, extra_req=(), light=False, S2=None):
     def build(job, wd):
         st = size_type(L)
         sz = unit.object_size(L, wd)
-        key, wpath = unit.files(L, K, c11, methods)
-        ctext = (prelude_c(L, K, light=light) + '#define OBJSZ %dul\n' % sz + wrapper_decl(m) + '\n' + contract_text(m, L, K, c11, extra_req, light=light))
+        sz2 = unit.object_size(S2, wd) if S2 else sz
+        key, wpath = unit.files(L, K, c11, methods, S2)
+        ctext = (prelude_c(L, K, light=light, S2=S2) + '#define OBJSZ %dul\n#define OBJSZ2 %dul\n' % (sz, sz2) + wrapper_decl(m) + '\n' + contract_text(m, L, K, c11, extra_req, light=light, S2=S2))
         cname = '%s_%s%s.c' % (key, m.id, '_in' if any('/*in*/' in r for r in extra_req) else '')
         cpath = os.path.join(wd, cname)
         open(cpath, 'w').write(ctext)
@@ -596,7 +662,7 @@ def make_build(unit, m, L, K, c11, methods, extra_req=(), light=False):
 # --------------------------------------------------------------------------------------------
 # native replay (real header, ASan/UBSan)
 
-def replay_args(m, L, K, inputs, content):
+def replay_args(m, L, K, inputs, content, S2=None):
     def gi(k, d=0):
         v = inputs.get(k, d)
         return v if isinstance(v, int) else d
@@ -614,16 +680,18 @@ def replay_args(m, L, K, inputs, content):
         elif kind == 'F':
             a.append('other_len=%d' % gi(name + '_n'))
             a.append('other_c=' + ''.join('%02x' % (gi('%s_%d' % (name, j)) & 255) for j in range(L)))
+        elif kind == 'G':
+            a.append('str=' + ''.join('%02x' % (gi('%s_%d' % (name, j)) & 255) for j in range(min(gi(name + '_n'), S2 or L))))
     if content:
         a.append('content=1')
     return a
 
 
-def native_replay(scratch, L, args):
-    exe = scratch.path('replay', 'fs_L%d' % L)
+def native_replay(scratch, L, args, S2=None):
+    exe = scratch.path('replay', 'fs_L%d_%d' % (L, S2 or L))
     if not os.path.exists(exe):
         cmd = ['g++', '-std=c++17', '-g', '-O0', '-w', '-fsanitize=address,undefined', '-fno-sanitize-recover=all',
-               '-fno-access-control', '-I', core.SRC, '-DCV_L=%d' % L, os.path.join(core.VERIF, 'replay', 'fs.cpp'), '-o', exe]
+               '-fno-access-control', '-I', core.SRC, '-DCV_L=%d' % L, '-DCV_S=%d' % (S2 or L), os.path.join(core.VERIF, 'replay', 'fs.cpp'), '-o', exe]
         rc, out, err, s = core.run(cmd, timeout=300, limit=False)
         if rc != 0:
             return {'outcome': 'unavailable', 'detail': 'replay build failed: ' + err[-800:]}
@@ -631,7 +699,7 @@ def native_replay(scratch, L, args):
     text = (out + err).strip()
     rep = rc != 0
     return {'outcome': 'reproduced' if rep else 'not-reproduced',
-            'cmd': 'replay/fs.cpp -DCV_L=%d: %s' % (L, ' '.join(args)), 'args': {'L': L, 'argv': args},
+            'cmd': 'replay/fs.cpp -DCV_L=%d -DCV_S=%d: %s' % (L, S2 or L, ' '.join(args)), 'args': {'L': L, 'S2': S2, 'argv': args},
             'output': text[-1800:]}
 
 
@@ -641,14 +709,15 @@ def replay(unit, job, o, inputs, scratch):
     m = next((x for x in METHODS + OBSERVERS if x.id == mid), None)
     if m is None:
         return {'outcome': 'unavailable', 'detail': 'no method ' + mid}
-    return native_replay(scratch, L, replay_args(m, L, K, inputs, unit.prop == 'C11'))
+    S2 = job.instance.get('S2')
+    return native_replay(scratch, L, replay_args(m, L, K, inputs, unit.prop == 'C11', S2), S2)
 
 
 def replay_record(rec, scratch):
     a = rec.get('native_replay', {}).get('args')
     if not a:
         return {'outcome': 'unavailable', 'detail': 'record carries no replay arguments'}
-    return native_replay(scratch, a['L'], a['argv'])
+    return native_replay(scratch, a['L'], a['argv'], a.get('S2'))
 
 
 def evidence_info(unit, tier):
